@@ -17,12 +17,12 @@ from jsonpath.function_extensions.filter_function import FilterFunction
 
 from .exceptions import JSONPathSyntaxError
 from .exceptions import JSONPathTypeError
-from .filter import CURRENT_KEY
 from .filter import FALSE
 from .filter import NIL
 from .filter import TRUE
 from .filter import UNDEFINED_LITERAL
 from .filter import BooleanExpression
+from .filter import CurrentKey
 from .filter import FilterContextPath
 from .filter import FilterExpression
 from .filter import FloatLiteral
@@ -593,7 +593,7 @@ class Parser:
         )
 
     def parse_current_key(self, _: TokenStream) -> FilterExpression:
-        return CURRENT_KEY
+        return CurrentKey(self.env)
 
     def parse_filter_context_path(self, stream: TokenStream) -> FilterExpression:
         stream.next_token()
